@@ -11,7 +11,8 @@
 //	    builder: `<b>,<t>`; b: 0 default CAN-ID builder, 1 message id only, 2 node id only, 3 no
 //	             operations (1-3 make the computed CAN-IDs of distinct messages collide);
 //	             t: the BusType value set with Bus.SetType after the bus is built (0 = CAN 2.0A);
-//	             a third component is the decoration seed (0 = plain bus), see build
+//	             a third component is the decoration seed (0 = plain bus), see build; a fourth
+//	             is 1 when the bus is obtained through ImportDBCFile (see buildImported)
 //	    ifaces:  `|`-separated interfaces (`-` = none), each `<node id>=` followed by a
 //	             space-separated list of key:size:cycle:<message id>
 //	    obs:     one per call, `~`-separated:
@@ -53,6 +54,7 @@ type bspec struct {
 	builder   int
 	typ       int   // BusType value: 0 = BusTypeCAN2A (the only constant the library defines)
 	dseed     uint64 // != 0: decorate the bus with everything the load must not depend on (see build)
+	imp       bool   // the bus is obtained through ImportDBCFile of a DBC text generated from this spec
 	nids      []int // node id per interface (nil: i+1)
 	ifaces    [][]mspec
 	family    string
@@ -97,10 +99,16 @@ func (b bspec) input() string {
 	for _, d := range b.defs() {
 		ds = append(ds, strconv.Itoa(d))
 	}
-	return fmt.Sprintf("L;%d;%s;%d,%d,%d;%s", b.baud, strings.Join(ds, ","), b.builder, b.typ, b.dseed, s)
+	imp := 0
+	if b.imp {
+		imp = 1
+	}
+	return fmt.Sprintf("L;%d;%s;%d,%d,%d,%d;%s", b.baud, strings.Join(ds, ","), b.builder, b.typ, b.dseed, imp, s)
 }
 
 // build constructs the bus through the public API; msgOf maps the created messages to keys.
+var specialNodeNames = []string{"Vector__XXX", "", "BO_", "BU_", "SG_", "VAL_"}
+
 type built struct {
 	bus     *acmelib.Bus
 	keys    map[*acmelib.Message]int
@@ -117,6 +125,9 @@ type built struct {
 // before or after AddSentMessage); delay and start delay times below / equal to / above the cycle
 // time; priority, send type, description, signals, receivers, attribute assignments.
 func build(b bspec) (*built, error) {
+	if b.imp {
+		return buildImported(b)
+	}
 	bus := acmelib.NewBus("bus")
 	bus.SetBaudrate(b.baud)
 	switch b.builder {
@@ -141,6 +152,7 @@ func build(b bspec) (*built, error) {
 	}
 	staticBase := []int{0x100, 0x7F0, 0x800, 0x1FFFFF00}[d.below(4)]
 	nForeign := 0
+	detached := map[*acmelib.Node]*acmelib.NodeInterface{} // an interface of the node that is on no bus
 	var onBus []*acmelib.NodeInterface
 	for i, ms := range b.ifaces {
 		count, idx := 1, 0
@@ -148,7 +160,14 @@ func build(b bspec) (*built, error) {
 			count = 1 + d.below(3)
 			idx = d.below(count)
 		}
-		node := acmelib.NewNode(fmt.Sprintf("n%d", i), acmelib.NodeID(b.nid(i)), count)
+		// node names: also the names the library treats specially somewhere (the DBC placeholder for
+		// "no transmitter", the empty name, DBC keywords); unique on the bus as the library demands
+		name := fmt.Sprintf("n%d", i)
+		if deco && i < len(specialNodeNames) && d.below(2) == 0 {
+			name = specialNodeNames[i]
+			bt.deco["special-node-names"]++
+		}
+		node := acmelib.NewNode(name, acmelib.NodeID(b.nid(i)), count)
 		bt.nodes = append(bt.nodes, node)
 		// the other interfaces of a gateway node: own messages, on another bus or on none
 		joinedOther := false
@@ -174,6 +193,7 @@ func build(b bspec) (*built, error) {
 				bt.deco["interfaces-on-another-bus"]++
 			} else {
 				bt.deco["interfaces-on-no-bus"]++
+				detached[node] = oi
 			}
 		}
 		names := map[string]bool{}
@@ -278,9 +298,84 @@ func build(b bspec) (*built, error) {
 			}
 		}
 	}
+	// a message sent through an interface of this bus is ALSO added to another interface of the same
+	// node that is on no bus (the library accepts it and moves the message's sender back-pointer
+	// there, cf. the C05 finding about re-attaching): the interface on this bus still lists the
+	// message, so it still counts, with the frame bits of THIS bus
+	if deco {
+		for _, msg := range bt.msgs {
+			ni := msg.SenderNodeInterface()
+			if oi, ok := detached[ni.Node()]; ok && oi != ni && d.below(3) == 0 {
+				if err := oi.AddSentMessage(msg); err == nil {
+					bt.deco["messages-also-on-a-detached-interface"]++
+				}
+			}
+		}
+	}
 	if b.typ != 0 {
 		// after the messages are in place: a bus of an undefined type refuses every message size
 		bus.SetType(acmelib.BusType(b.typ))
+	}
+	return bt, nil
+}
+
+// buildImported obtains the bus through ImportDBCFile of a DBC text generated from the spec: node
+// N<i> per interface, except that the LAST interface's messages have no transmitter (the DBC
+// placeholder Vector__XXX, for which the importer keeps a node of that name on the bus); messages
+// M<key> with BO_ id key+1 and their size; cycle times are set afterwards through the API.
+func buildImported(b bspec) (*built, error) {
+	var sb strings.Builder
+	sb.WriteString("VERSION \"\"\n\nNS_ :\n\nBS_:\n\nBU_:")
+	last := len(b.ifaces) - 1
+	for i := range b.ifaces {
+		if i != last {
+			fmt.Fprintf(&sb, " N%d", i)
+		}
+	}
+	sb.WriteString("\n\n")
+	for i, ms := range b.ifaces {
+		sender := fmt.Sprintf("N%d", i)
+		if i == last {
+			sender = "Vector__XXX"
+		}
+		for _, m := range ms {
+			fmt.Fprintf(&sb, "BO_ %d M%d: %d %s\n", m.key+1, m.key, m.size, sender)
+			if m.size > 0 {
+				fmt.Fprintf(&sb, " SG_ s%d : 0|%d@1+ (1,0) [0|1] \"\" Vector__XXX\n", m.key, 1+m.key%(m.size*8))
+			}
+			sb.WriteString("\n")
+		}
+	}
+	bus, err := acmelib.ImportDBCFile("bus", strings.NewReader(sb.String()))
+	if err != nil {
+		return nil, fmt.Errorf("ImportDBCFile of the generated text failed: %w\n%s", err, sb.String())
+	}
+	bus.SetBaudrate(b.baud)
+	bt := &built{bus: bus, keys: map[*acmelib.Message]int{}, deco: map[string]int{"imported-buses": 1}}
+	byName := map[string]*acmelib.Message{}
+	for _, ni := range bus.NodeInterfaces() {
+		bt.nodes = append(bt.nodes, ni.Node())
+		for _, m := range ni.SentMessages() {
+			byName[m.Name()] = m
+		}
+		if ni.Node().Name() == "Vector__XXX" {
+			bt.deco["sender-less-messages"] += len(ni.SentMessages())
+		}
+	}
+	for _, m := range b.msgs() {
+		msg, ok := byName[fmt.Sprintf("M%d", m.key)]
+		if !ok {
+			return nil, fmt.Errorf("imported bus does not contain message M%d\n%s", m.key, sb.String())
+		}
+		if msg.SizeByte() != m.size {
+			return nil, fmt.Errorf("imported message M%d has size %d, the file says %d", m.key, msg.SizeByte(), m.size)
+		}
+		msg.SetCycleTime(m.cycle)
+		bt.keys[msg] = m.key
+		bt.msgs = append(bt.msgs, msg)
+	}
+	if len(byName) != len(bt.msgs) {
+		return nil, fmt.Errorf("imported bus has %d messages, the file has %d", len(byName), len(bt.msgs))
 	}
 	return bt, nil
 }
@@ -717,7 +812,7 @@ func (s *state) monotone(r *rng, b bspec, load *big.Rat) {
 	n := len(msgs)
 	pick := msgs[r.below(n)].key
 	variant := func(f func(m *mspec)) bspec {
-		v := bspec{baud: b.baud, def: b.def, family: b.family, builder: b.builder, nids: b.nids, typ: b.typ, dseed: b.dseed}
+		v := bspec{baud: b.baud, def: b.def, family: b.family, builder: b.builder, nids: b.nids, typ: b.typ, dseed: b.dseed, imp: b.imp}
 		for _, i := range b.ifaces {
 			ni := append([]mspec{}, i...)
 			for j := range ni {
@@ -909,6 +1004,17 @@ func (r *rng) genBus() bspec {
 	}
 	b.ifaces = r.distribute(ms)
 	r.decorate(&b)
+	// now and then the bus comes out of the DBC importer (with sender-less messages on the
+	// placeholder node Vector__XXX)
+	if r.below(10) == 0 && len(ms) > 0 {
+		b.imp, b.builder, b.dseed, b.nids = true, 0, 0, nil
+		for i := range b.ifaces {
+			for j := range b.ifaces[i] {
+				b.ifaces[i][j].mid = 0
+			}
+		}
+		return b
+	}
 	// an undefined bus type value now and then (frame constants 0; the theorems about monotonicity
 	// and the float link cover it): at least one non-empty message, so that the total is not 0
 	if r.below(30) == 0 && len(ms) > 0 {
@@ -1043,6 +1149,9 @@ func main() {
 			{baud: 500000, def: 100, typ: 1, family: "fixed", ifaces: [][]mspec{{{0, 0, 10, 0}}}},
 			{baud: 500000, def: 100, typ: 1, family: "fixed", ifaces: [][]mspec{{{0, 0, 10, 0}, {1, 0, 0, 0}}, {{2, 0, 7, 0}}}},
 			{baud: 500000, def: 100, typ: 1, family: "fixed", ifaces: [][]mspec{{{0, 0, 10, 0}, {1, 3, 0, 0}}}},
+			// buses obtained through ImportDBCFile; the last interface's messages have no transmitter
+			{baud: 500000, def: 100, imp: true, family: "fixed", ifaces: [][]mspec{{{0, 8, 100, 0}}, {}, {{1, 4, 0, 0}, {2, 0, 10, 0}}}},
+			{baud: 125000, def: 50, imp: true, family: "fixed", ifaces: [][]mspec{{{0, 8, 0, 0}, {1, 2, 20, 0}}}},
 			// several calls on the same bus with different defaults (and the same one twice)
 			{baud: 500000, def: 100, more: []int{250, 100, 0, 250, -1, 7}, family: "fixed", ifaces: [][]mspec{{{0, 8, 0, 0}, {1, 4, 0, 0}, {2, 8, 10, 0}}}},
 			{baud: 125000, def: 1, more: []int{3600000, 1}, family: "fixed", ifaces: [][]mspec{{{0, 0, 0, 0}}, {{1, 8, 0, 0}}}},
@@ -1130,6 +1239,9 @@ func parseCase(line string) bspec {
 	if len(bt) > 2 {
 		ds, _ := strconv.ParseUint(bt[2], 10, 64)
 		b.dseed = ds
+	}
+	if len(bt) > 3 {
+		b.imp = bt[3] == "1"
 	}
 	for _, d := range ds[1:] {
 		b.more = append(b.more, atoi(d))
